@@ -36,324 +36,450 @@ Proof.
     try (destruct lg; reflexivity); try (destruct fl; reflexivity).
 Qed.
 
-(* ------------------------------------------------------------ one-step facts of the glue *)
+(* ------------------------------------------------------------ rib operations *)
 
-Lemma filter_In_keep : forall (A : Type) (p : A -> bool) l x, In x l -> p x = true -> In x (filter p l).
-Proof. intros A p l x Hi Hp. apply filter_In. split; assumption. Qed.
-
-(* (a) a connection attempt that ends before Established leaves every pending
-       timer, the helper phase and the routes as they were *)
-Theorem C10_failed_reconnect_keeps_timer :
-  forall (h : hstate),
-    let h' := h_step h HFailedConnect in
-    h_ltimers h' = h_ltimers h /\ h_rib h' = h_rib h /\ h_gr h' = h_gr h /\ h_sess h' = h_sess h
-    /\ (is_peer_restarting (h_gr h) = true -> h_rtimer h' = h_rtimer h).
+Lemma filter_all : forall (A : Type) (p : A -> bool) l, (forall x, In x l -> p x = true) -> filter p l = l.
 Proof.
-  intros h. cbn. repeat split. intros ->. reflexivity.
+  intros A p l H. induction l as [|x r IH]; [reflexivity|]. cbn [filter].
+  rewrite (H x (or_introl eq_refl)). f_equal. apply IH. intros y Hy. apply H. right; exact Hy.
 Qed.
 
-(* (b) NO_LLGR routes are gone when the LLGR period of their family starts *)
-Lemma mark_llgr_no_llgr : forall rib fams r,
-    In r (rib_mark_llgr rib fams) -> in_fams fams r = true -> r_no_llgr r = false.
+Lemma drop_nil : forall rib, rib_drop rib [] = rib.
+Proof. intros rib. apply filter_all. intros; reflexivity. Qed.
+Lemma drop_stale_nil : forall rib, rib_drop_stale rib [] = rib.
+Proof. intros rib. apply filter_all. intros; reflexivity. Qed.
+Lemma drop_llgr_stale_nil : forall rib, rib_drop_llgr_stale rib [] = rib.
+Proof. intros rib. apply filter_all. intros; reflexivity. Qed.
+
+Lemma in_drop : forall rib F r, In r (rib_drop rib F) <-> In r rib /\ mem (r_fam r) F = false.
 Proof.
-  intros rib fams r Hin Hf. unfold rib_mark_llgr in Hin. apply filter_In in Hin. destruct Hin as [_ Hn].
-  rewrite Hf in Hn. cbn [andb] in Hn. destruct (r_no_llgr r); [discriminate | reflexivity].
+  intros rib F r. unfold rib_drop, in_fams. rewrite filter_In. split; intros [H1 H2]; (split; [exact H1|]);
+    destruct (mem (r_fam r) F); cbn in *; congruence.
 Qed.
 
-Lemma mark_llgr_marks : forall rib fams r,
-    In r (rib_mark_llgr rib fams) -> in_fams fams r = true -> r_llgr r = true.
+Lemma in_drop_stale : forall rib F r,
+    In r (rib_drop_stale rib F) <-> In r rib /\ (mem (r_fam r) F && r_stale r) = false.
 Proof.
-  intros rib fams r Hin Hf. unfold rib_mark_llgr in Hin. apply filter_In in Hin. destruct Hin as [Hin _].
-  apply in_map_iff in Hin. destruct Hin as [q [Hq _]].
-  destruct (in_fams fams q) eqn:E; subst r; [reflexivity|]. congruence.
+  intros rib F r. unfold rib_drop_stale, in_fams. rewrite filter_In. split; intros [H1 H2]; (split; [exact H1|]);
+    destruct (mem (r_fam r) F && r_stale r); cbn in *; congruence.
 Qed.
 
-Theorem C10_no_llgr_dropped_at_llgr_start :
-  forall (h : hstate) (l : list (fam * N)),
-    (* the restart timer expires and the LLGR period starts for the families of l *)
-    h_rtimer h = true -> start_llgr (snd (gr_step (h_gr h) GTimerExpired)) = Some l ->
-    let h' := h_step h HRestartTimer in
-    (forall f, In f (map fst l) -> mem f (h_ltimers h') = true)
-    /\ (forall r, In r (h_rib h') -> mem (r_fam r) (map fst l) = true -> r_no_llgr r = false /\ r_llgr r = true).
+Lemma in_drop_llgr_stale : forall rib F r,
+    In r (rib_drop_llgr_stale rib F) <-> In r rib /\ (mem (r_fam r) F && r_llgr r) = false.
 Proof.
-  intros h l Hrt Hst h'. subst h'. cbn [h_step]. rewrite Hrt.
-  destruct (gr_step (h_gr h) GTimerExpired) as [g' outs]. cbn [snd] in Hst. rewrite Hst. cbn [h_ltimers h_rib upd_h].
-  split.
-  - intros f Hf. unfold add_timers. rewrite mem_dedup. apply mem_In. apply in_or_app. right. exact Hf.
-  - intros r Hin Hf. split; [eapply mark_llgr_no_llgr | eapply mark_llgr_marks]; eassumption.
+  intros rib F r. unfold rib_drop_llgr_stale, in_fams. rewrite filter_In. split; intros [H1 H2]; (split; [exact H1|]);
+    destruct (mem (r_fam r) F && r_llgr r); cbn in *; congruence.
 Qed.
 
-(* the same at a session drop that starts the LLGR period at once (LLGR only) *)
-Theorem C10_no_llgr_dropped_at_llgr_only_drop :
-  forall (h : hstate) gr ll (l : list (fam * N)),
-    start_llgr (snd (gr_step (h_gr h) (GSessionDropped gr ll))) = Some l ->
-    (gr <> None \/ ll <> None) ->
-    let h' := apply_disconnect h gr ll in
-    forall r, In r (h_rib h') -> mem (r_fam r) (map fst l) = true -> r_no_llgr r = false /\ r_llgr r = true.
+Lemma in_restale : forall rib F r,
+    In r (rib_restale rib F) ->
+    exists q, In q rib /\ r_fam r = r_fam q /\ r_sess r = r_sess q /\ r_id r = r_id q /\ r_llgr r = r_llgr q
+              /\ (mem (r_fam q) F = true -> r_stale r = true).
 Proof.
-  intros h gr ll l Hst Hne h' r Hin Hf. subst h'. unfold apply_disconnect in Hin.
-  destruct (gr_step (h_gr h) (GSessionDropped gr ll)) as [g' outs]. cbn [snd] in Hst.
-  destruct gr as [g|]; [|destruct ll as [x|]; [|destruct Hne; congruence]];
-    rewrite Hst in Hin; cbn [h_rib upd_h] in Hin;
-    (split; [eapply mark_llgr_no_llgr | eapply mark_llgr_marks]; eassumption).
+  intros rib F r Hin. unfold rib_restale in Hin. apply in_map_iff in Hin. destruct Hin as [q [Hq Hin]].
+  exists q. unfold in_fams in Hq. destruct (mem (r_fam q) F); subst r; cbn; repeat split; try reflexivity; try assumption.
+  intros; discriminate.
 Qed.
 
-(* (c) the stale purges never remove an unmarked route that does not carry the
-       LLGR_STALE community: End-of-RIB and re-establishment only delete marked routes *)
-Lemma drop_stale_keeps : forall rib fams r, In r rib -> r_stale r = false -> In r (rib_drop_stale rib fams).
-Proof. intros rib fams r Hi Hs. apply filter_In_keep; [assumption|]. rewrite Hs, andb_false_r. reflexivity. Qed.
-
-Lemma drop_llgr_stale_keeps : forall rib fams r,
-    In r rib -> r_llgr r = false -> r_llgr_comm r = false -> In r (rib_drop_llgr_stale rib fams).
+Lemma in_mark_llgr : forall rib F r,
+    In r (rib_mark_llgr rib F) ->
+    exists q, In q rib /\ r_fam r = r_fam q /\ r_sess r = r_sess q /\ r_stale r = r_stale q
+              /\ (mem (r_fam q) F = true -> r_llgr r = true /\ r_no_llgr r = false).
 Proof.
-  intros rib fams r Hi Hl Hc. apply filter_In_keep; [assumption|]. unfold is_llgr_stale.
-  rewrite Hl, Hc, andb_false_r. reflexivity.
-Qed.
-
-Theorem C10_fresh_routes_survive_purge_outside_known :
-  forall (h : hstate) (e : hevent) (r : route),
-    (exists f, e = HEor f) \/ (exists fams gr ll, e = HUp fams gr ll) ->
-    In r (h_rib h) -> r_stale r = false -> r_llgr r = false ->
-    r_llgr_comm r = false ->                                   (* ~ Known_C10_6 for this route *)
-    In r (h_rib (h_step h e)).
-Proof.
-  intros h e r He Hin Hs Hl Hc. destruct He as [[f ->]|[fams [gr [ll ->]]]]; cbn [h_step].
-  - destruct (h_sess h) as [s|]; [|assumption]. destruct (s_gr s); [|assumption].
-    destruct (gr_step (h_gr h) (GEorReceived f)) as [g' outs]. cbn [h_rib upd_h].
-    apply drop_llgr_stale_keeps; [apply drop_stale_keeps|..]; assumption.
-  - destruct (h_sess h) as [s|]; [assumption|].
-    destruct (gr_step (h_gr h) _) as [g' outs]. cbn [h_rib].
-    apply drop_llgr_stale_keeps; [apply drop_stale_keeps|..]; assumption.
-Qed.
-
-(* finding C10-6: with the community the fresh route is purged *)
-Definition w6 : list hevent :=
-  [HUp [V4] (Some ([V4], 120, false)) (Some [(V4, 3600)]); HAnnounce V4 0 false false; HDown RsTcp; HRestartTimer;
-   HUp [V4] (Some ([V4], 120, false)) (Some [(V4, 3600)]); HAnnounce V4 1 false true].
-
-Theorem C10_fresh_routes_survive_purge_refuted :
-  exists (evs : list hevent) (f : fam) (r : route),
-    Known_C10_6 evs = true /\
-    let h := h_run h0 evs in
-    In r (h_rib h) /\ retained h r = false /\ ~ In r (h_rib (h_step h (HEor f))).
-Proof.
-  exists w6, V4, {| r_fam := V4; r_id := 1; r_sess := 2; r_stale := false; r_llgr := false;
-                   r_no_llgr := false; r_llgr_comm := true |}.
-  split; [vm_compute; reflexivity|]. cbv zeta. split; [vm_compute; auto|]. split; [vm_compute; reflexivity|].
-  vm_compute. intros [].
-Qed.
-
-(* (d) removal no later than the expiry / the End-of-RIB *)
-Theorem C10_purged_by_expiry_or_eor :
-  forall (h : hstate),
-    (* End-of-RIB for a family awaited after a GR reconnect *)
-    (forall f s g pending, h_sess h = Some s -> s_gr s = Some g -> h_gr h = GPeerReconnected pending false ->
-        forall r, In r (h_rib (h_step h (HEor f))) -> r_fam r = f -> r_stale r = false)
-    (* ... after an LLGR reconnect *)
-    /\ (forall f s g pending, h_sess h = Some s -> s_gr s = Some g -> h_gr h = GPeerReconnected pending true ->
-        forall r, In r (h_rib (h_step h (HEor f))) -> r_fam r = f -> is_llgr_stale r = false)
-    (* restart timer expiry without LLGR: nothing of the stale families is left *)
-    /\ (forall stale, h_rtimer h = true -> h_gr h = GPeerRestarting stale None ->
-        forall r, In r (h_rib (h_step h HRestartTimer)) -> mem (r_fam r) stale = false)
-    (* LLGR timer expiry *)
-    /\ (forall f remaining, mem f (h_ltimers h) = true -> h_gr h = GLlgrStaling remaining ->
-        forall r, In r (h_rib (h_step h (HLlgrTimer f))) -> r_fam r = f -> is_llgr_stale r = false).
-Proof.
-  intros h. repeat split.
-  - intros f s g pending Hs Hg Hgr r Hin Hf. cbn [h_step] in Hin. rewrite Hs, Hg, Hgr in Hin.
-    cbn in Hin. apply filter_In in Hin. destruct Hin as [Hin _]. apply filter_In in Hin. destruct Hin as [_ Hn].
-    unfold in_fams, mem in Hn. cbn [existsb] in Hn. rewrite Hf, N.eqb_refl in Hn. cbn in Hn.
-    destruct (r_stale r); [discriminate | reflexivity].
-  - intros f s g pending Hs Hg Hgr r Hin Hf. cbn [h_step] in Hin. rewrite Hs, Hg, Hgr in Hin.
-    cbn in Hin. apply filter_In in Hin. destruct Hin as [_ Hn].
-    unfold in_fams, mem in Hn. cbn [existsb] in Hn. rewrite Hf, N.eqb_refl in Hn. cbn in Hn.
-    destruct (is_llgr_stale r); [discriminate | reflexivity].
-  - intros stale Hrt Hgr r Hin. cbn [h_step] in Hin. rewrite Hrt, Hgr in Hin. cbn in Hin.
-    rewrite app_nil_r in Hin. apply filter_In in Hin. destruct Hin as [_ Hn]. unfold in_fams in Hn.
-    destruct (mem (r_fam r) stale); [discriminate | reflexivity].
-  - intros f remaining Hlt Hgr r Hin Hf. cbn [h_step] in Hin. rewrite Hlt, Hgr in Hin. cbn in Hin.
-    apply filter_In in Hin. destruct Hin as [_ Hn].
-    unfold in_fams, mem in Hn. cbn [existsb] in Hn. rewrite Hf, N.eqb_refl in Hn. cbn in Hn.
-    destruct (is_llgr_stale r); [discriminate | reflexivity].
-Qed.
-
-(* (e) at a session drop the routes of every family that was not negotiated for
-       GR or LLGR are removed at once (whatever the reason) *)
-Lemma in_restale : forall rib fams r, In r (rib_restale rib fams) -> exists q, In q rib /\ r_fam q = r_fam r.
-Proof.
-  intros rib fams r Hin. unfold rib_restale in Hin. apply in_map_iff in Hin. destruct Hin as [q [Hq Hin]].
-  exists q. split; [assumption|]. destruct (in_fams fams q); subst r; reflexivity.
-Qed.
-
-Lemma in_mark_llgr : forall rib fams r, In r (rib_mark_llgr rib fams) -> exists q, In q rib /\ r_fam q = r_fam r.
-Proof.
-  intros rib fams r Hin. unfold rib_mark_llgr in Hin. apply filter_In in Hin. destruct Hin as [Hin _].
+  intros rib F r Hin. unfold rib_mark_llgr in Hin. apply filter_In in Hin. destruct Hin as [Hin Hn].
   apply in_map_iff in Hin. destruct Hin as [q [Hq Hin]].
-  exists q. split; [assumption|]. destruct (in_fams fams q); subst r; reflexivity.
+  exists q. unfold in_fams in *. destruct (mem (r_fam q) F) eqn:E; subst r; cbn in *; repeat split; try reflexivity; try assumption.
+  - rewrite E in Hn. cbn in Hn. destruct (r_no_llgr q); [discriminate | reflexivity].
+  - intros; discriminate.
+  - intros; discriminate.
 Qed.
 
-Lemma apply_disconnect_fams : forall h gr ll r,
-    In r (h_rib (apply_disconnect h gr ll)) -> exists q, In q (h_rib h) /\ r_fam q = r_fam r.
+Lemma in_insert : forall rib r q,
+    In q (rib_insert rib r) -> q = r \/ In q rib.
 Proof.
-  intros h gr ll r Hin. unfold apply_disconnect in Hin.
-  assert (forall g' outs,
-             In r (h_rib match start_llgr outs with
-                         | Some l => upd_h h g' (existsb (fun o => match o with GStartTimer _ => true | _ => false end) outs)
-                                           (add_timers (h_ltimers h) (map fst l)) (rib_mark_llgr (h_rib h) (map fst l))
-                         | None => upd_h h g' (existsb (fun o => match o with GStartTimer _ => true | _ => false end) outs)
-                                         (h_ltimers h) (h_rib h)
-                         end) -> exists q, In q (h_rib h) /\ r_fam q = r_fam r) as Hgen.
-  { intros g' outs H. destruct (start_llgr outs); cbn [h_rib upd_h] in H;
-      [apply in_mark_llgr in H; exact H | exists r; split; [assumption | reflexivity]]. }
-  destruct gr as [g|]; [|destruct ll as [l|]].
-  - destruct (gr_step (h_gr h) _) as [g' outs]. apply (Hgen g' outs). exact Hin.
-  - destruct (gr_step (h_gr h) _) as [g' outs]. apply (Hgen g' outs). exact Hin.
-  - cbn [h_rib upd_h] in Hin. exists r. split; [assumption | reflexivity].
+  intros rib r q H. unfold rib_insert in H. apply in_app_or in H. destruct H as [H|[H|[]]].
+  - right. apply filter_In in H. tauto.
+  - left. symmetry. exact H.
 Qed.
 
-Theorem C10_non_negotiated_families_dropped_at_once :
-  forall (h : hstate) (s : session) (rs : reason) (r : route),
-    h_sess h = Some s ->
-    In r (h_rib (h_step h (HDown rs))) ->
-    mem (r_fam r) (s_fams s) = true ->
-    mem (r_fam r) (fams_of_gr (s_gr s)) = true \/ mem (r_fam r) (fams_of_llgr (s_llgr s)) = true.
+Lemma mem_nil_list : forall (l : list N), (forall f, mem f l = false) -> l = [].
 Proof.
-  intros h s rs r Hs Hin Hf. cbn [h_step] in Hin. rewrite Hs in Hin.
-  apply apply_disconnect_fams in Hin. destruct Hin as [q [Hq Hfq]]. cbn [h_rib] in Hq.
-  apply in_restale in Hq. destruct Hq as [q' [Hq' Hfq']].
-  unfold rib_drop in Hq'. apply filter_In in Hq'. destruct Hq' as [_ Hn].
-  unfold in_fams in Hn. rewrite Hfq', Hfq in Hn.
-  apply negb_true_iff in Hn. apply mem_false_In in Hn.
-  destruct (mem (r_fam r) (fams_of_gr (s_gr s))) eqn:E1; [left; reflexivity|].
-  destruct (mem (r_fam r) (fams_of_llgr (s_llgr s))) eqn:E2; [right; reflexivity|].
-  exfalso. apply Hn. apply filter_In. split; [apply mem_In; assumption|].
-  unfold fams_of_gr, fams_of_llgr in E1, E2. rewrite E1, E2. reflexivity.
+  intros [|x r] H; [reflexivity|]. specialize (H x). unfold mem in H. cbn in H. rewrite N.eqb_refl in H. discriminate.
 Qed.
 
-(* ------------------------------------------------------------ the open findings *)
+Lemma mem_app : forall f a b, mem f (a ++ b) = mem f a || mem f b.
+Proof. intros. unfold mem. apply existsb_app. Qed.
 
-Definition w2 : list hevent :=
-  [HUp [V4] (Some ([V4], 120, true)) None; HAnnounce V4 0 false false; HDown RsRemoteHard].
-Definition w3 : list hevent :=
-  [HUp [V4; V6] (Some ([V4; V6], 120, false)) (Some [(V4, 3600); (V6, 3600)]); HAnnounce V6 0 false false;
-   HDown RsTcp; HRestartTimer; HUp [V4; V6] (Some ([V4], 120, false)) None].
-Definition w4 : list hevent :=
-  [HUp [V4; V6] (Some ([V4; V6], 120, false)) (Some [(V4, 3600)]); HAnnounce V6 0 false false; HDown RsTcp; HRestartTimer].
-Definition w5 : list hevent :=
-  [HUp [V4; V6] (Some ([V4], 120, false)) (Some [(V4, 3600); (V6, 3600)]); HAnnounce V6 0 false false; HDown RsTcp;
-   HUp [V4; V6] (Some ([V4], 120, false)) (Some [(V4, 3600); (V6, 3600)])].
-
-(* the full-strength invariant is false of the faithful model: one witness per open finding *)
-Theorem C10_stale_implies_timer_or_eor_refuted :
-  (Known_C10_2 w2 = true /\ stale_ok (h_run h0 w2) = false)
-  /\ (Known_C10_3 w3 = true /\ stale_ok (h_run h0 w3) = false)
-  /\ (Known_C10_4 w4 = true /\ stale_ok (h_run h0 w4) = false)
-  /\ (Known_C10_5 w5 = true /\ stale_ok (h_run h0 w5) = false).
-Proof. vm_compute. repeat split; reflexivity. Qed.
-
-(* a hard reset (finding C10-2) leaves the stale-marked routes in the table although helper mode is not entered *)
-Theorem C10_non_gr_reasons_retain_nothing_refuted :
-  exists evs, Known_C10_2 evs = true /\
-              let h := h_run h0 evs in
-              is_peer_restarting (h_gr h) = false /\ h_rtimer h = false /\ h_ltimers h = [] /\ h_rib h <> [].
-Proof. exists w2. vm_compute. repeat split; try reflexivity. discriminate. Qed.
-
-(* outside that class: a session that negotiated neither GR nor LLGR leaves nothing behind *)
-Theorem C10_non_gr_reasons_retain_nothing_outside_known :
-  forall (h : hstate) (s : session) (rs : reason) (r : route),
-    h_sess h = Some s -> s_gr s = None -> s_llgr s = None ->
-    In r (h_rib (h_step h (HDown rs))) -> mem (r_fam r) (s_fams s) = false.
+Lemma mem_filter : forall f p l, mem f (filter p l) = mem f l && p f.
 Proof.
-  intros h s rs r Hs Hg Hl Hin.
-  destruct (mem (r_fam r) (s_fams s)) eqn:E; [|reflexivity].
-  destruct (C10_non_negotiated_families_dropped_at_once h s rs r Hs Hin E) as [H|H];
-    [rewrite Hg in H | rewrite Hl in H]; discriminate.
+  intros f p l. destruct (mem f (filter p l)) eqn:E.
+  - apply mem_In in E. apply filter_In in E. destruct E as [Hi Hp]. apply mem_In in Hi. rewrite Hi, Hp. reflexivity.
+  - apply mem_false_In in E. destruct (mem f l) eqn:Hl; [|reflexivity]. destruct (p f) eqn:Hp; [|reflexivity].
+    exfalso. apply E. apply filter_In. split; [apply mem_In; assumption | assumption].
 Qed.
 
-(* ------------------------------------------------------------ bounded sweep
-   [partial] the invariant "stale routes only while a timer is armed or an
-   End-of-RIB is awaited", outside the known input classes, for every event
-   sequence of length <= 4 over the alphabet below (two families; GR-only,
-   GR+LLGR and plain sessions; every kind of event).  The unbounded statement
-   (all histories, all families) is not proved. *)
-Definition sweep_alphabet : list hevent :=
-  [HUp [V4; V6] (Some ([V4; V6], 120, true)) None;
-   HUp [V4; V6] (Some ([V4], 120, false)) (Some [(V4, 3600)]);
-   HUp [V4; V6] None None;
-   HUp [V4] None (Some [(V4, 3600)]);
-   HAnnounce V4 0 false false; HAnnounce V4 1 true false; HAnnounce V6 0 false false;
-   HEor V4; HEor V6;
-   HDown RsTcp; HDown RsRemoteCease; HDown RsRemoteHard; HDown RsOther;
-   HFailedConnect; HRestartTimer; HLlgrTimer V4; HLlgrTimer V6; HForceDown; HSetAdminDown true].
+Lemma mem_cons : forall f x r, mem f (x :: r) = (f =? x) || mem f r.
+Proof. reflexivity. Qed.
 
-Fixpoint all_seqs (al : list hevent) (n : nat) : list (list hevent) :=
-  match n with
-  | O => [[]]
-  | S k => flat_map (fun e => map (cons e) (all_seqs al k)) al
+(* the stale-family list built at a GR drop: the GR families plus the LLGR families *)
+Lemma mem_stale_fold : forall ll (acc : list fam) f,
+    mem f (fold_left (fun acc f => if mem f acc then acc else acc ++ [f]) ll acc) = mem f acc || mem f ll.
+Proof.
+  induction ll as [|x r IH]; intros acc f; cbn [fold_left].
+  - change (mem f []) with false. rewrite orb_false_r. reflexivity.
+  - rewrite IH, mem_cons. destruct (mem x acc) eqn:E.
+    + destruct (f =? x) eqn:Ef; [|reflexivity]. apply N.eqb_eq in Ef; subst. rewrite E. reflexivity.
+    + rewrite mem_app, mem_cons. change (mem f []) with false. rewrite orb_false_r, orb_assoc. reflexivity.
+Qed.
+
+(* ------------------------------------------------------------ the invariant *)
+
+(* facts that hold in every phase *)
+Record ginv (h : hstate) : Prop := {
+  gi_gen : forall r, In r (h_rib h) -> r_sess r <= h_gen h;
+  gi_sess : forall s, h_sess h = Some s ->
+      s_gen s = h_gen h /\ h_rtimer h = false /\ h_ltimers h = []
+      /\ subset_b (fams_of_gr (s_gr s)) (s_fams s) = true
+      /\ subset_b (fams_of_llgr (s_llgr s)) (s_fams s) = true
+      /\ (forall r, In r (h_rib h) -> r_sess r = s_gen s ->
+            r_stale r = false /\ r_llgr r = false /\ mem (r_fam r) (s_fams s) = true)
+}.
+
+(* facts per phase of GrState *)
+Definition pinv (h : hstate) : Prop :=
+  match h_gr h with
+  | GIdle =>
+      h_rtimer h = false /\ h_ltimers h = [] /\
+      forall r, In r (h_rib h) -> retained h r = false
+  | GPeerReconnected pending fl =>
+      h_rtimer h = false /\ h_ltimers h = [] /\
+      forall r, In r (h_rib h) -> retained h r = true ->
+                mem (r_fam r) pending = true
+                /\ (exists s, h_sess h = Some s /\ mem (r_fam r) (fams_of_gr (s_gr s)) = true)
+                /\ (if fl then r_llgr r = true else r_stale r = true)
+  | GPeerRestarting stale llgr =>
+      h_sess h = None /\ h_rtimer h = true /\ h_ltimers h = [] /\
+      forall r, In r (h_rib h) -> mem (r_fam r) stale = true /\ r_stale r = true
+  | GLlgrStaling rem =>
+      h_sess h = None /\ h_rtimer h = false /\ (forall f, mem f (h_ltimers h) = mem f rem) /\
+      forall r, In r (h_rib h) -> mem (r_fam r) rem = true /\ r_llgr r = true
   end.
 
-Definition sweep_ok (al : list hevent) (n : nat) : bool :=
-  forallb (fun evs => known_any evs || stale_ok_along h0 evs) (all_seqs al n).
+Definition inv (h : hstate) : Prop := ginv h /\ pinv h.
 
-Lemma all_seqs_complete : forall al n evs,
-    length evs = n -> Forall (fun e => In e al) evs -> In evs (all_seqs al n).
+Lemma inv_stale_ok : forall h, inv h -> stale_ok h = true.
 Proof.
-  intros al n. induction n as [|k IH]; intros evs Hl Hf.
-  - destruct evs; [left; reflexivity | discriminate].
-  - destruct evs as [|e r]; [discriminate|]. cbn [all_seqs]. apply in_flat_map.
-    inversion Hf; subst. exists e. split; [assumption|]. apply in_map. apply IH; [cbn in Hl; lia | assumption].
+  intros h [_ Hp]. unfold stale_ok. apply forallb_forall. intros r Hin. unfold pinv in Hp.
+  destruct (retained h r) eqn:Er; [cbn [negb orb] | reflexivity].
+  unfold covered, eor_awaited. destruct (h_gr h) as [|stale llgr|rem|pending fl] eqn:Eg.
+  - destruct Hp as [_ [_ Hr]]. rewrite (Hr r Hin) in Er. discriminate.
+  - destruct Hp as [_ [Hrt _]]. rewrite Hrt. reflexivity.
+  - destruct Hp as [_ [_ [Hlt Hr]]]. rewrite Hlt. destruct (Hr r Hin) as [Hm _]. rewrite Hm. rewrite orb_true_r. reflexivity.
+  - destruct Hp as [_ [_ Hr]]. destruct (Hr r Hin Er) as [Hm [[s [Hs _]] _]]. rewrite Hs, Hm. apply orb_true_r.
 Qed.
 
-Lemma sweep_4 : sweep_ok sweep_alphabet 4 = true.
-Proof. vm_compute. reflexivity. Qed.
-
-Theorem C10_stale_implies_timer_or_eor_partial :
-  forall (evs : list hevent),
-    length evs = 4%nat -> Forall (fun e => In e sweep_alphabet) evs ->
-    known_any evs = false ->
-    stale_ok_along h0 evs = true.
+Lemma inv_h0 : inv h0.
 Proof.
-  intros evs Hl Hf Hk. pose proof sweep_4 as H. unfold sweep_ok in H. rewrite forallb_forall in H.
-  specialize (H evs (all_seqs_complete _ _ _ Hl Hf)). rewrite Hk in H. exact H.
+  split.
+  - constructor; cbn; [intros r [] | intros s H; discriminate].
+  - cbn. repeat split. intros r [].
 Qed.
 
-Example sweep_nonvacuous :
-  let evs := [HUp [V4; V6] (Some ([V4], 120, false)) (Some [(V4, 3600)]); HAnnounce V4 0 false false; HDown RsTcp; HRestartTimer] in
-  known_any evs = false /\ Forall (fun e => In e sweep_alphabet) evs
-  /\ h_ltimers (h_run h0 evs) = [V4] /\ length (h_rib (h_run h0 evs)) = 1%nat.
+(* with no session every route is retained *)
+Lemma retained_no_session : forall h r, h_sess h = None -> retained h r = true.
+Proof. intros h r H. unfold retained. rewrite H. reflexivity. Qed.
+
+(* in phases that allow no retained route, no session means no route at all *)
+Lemma idle_no_session_empty : forall h,
+    pinv h -> h_gr h = GIdle -> h_sess h = None -> h_rib h = [].
 Proof.
-  cbv zeta. split; [vm_compute; reflexivity|]. split; [|vm_compute; split; reflexivity].
-  repeat constructor; cbn; tauto.
+  intros h Hp Hg Hs. unfold pinv in Hp. rewrite Hg in Hp. destruct Hp as [_ [_ Hr]].
+  destruct (h_rib h) as [|r rest]; [reflexivity|]. specialize (Hr r (or_introl eq_refl)).
+  rewrite (retained_no_session h r Hs) in Hr. discriminate.
 Qed.
 
-(* ------------------------------------------------------------ non-vacuity of the one-step statements *)
-Definition ex_gr_llgr : list hevent :=
-  [HUp [V4; V6] (Some ([V4; V6], 120, false)) (Some [(V4, 3600); (V6, 3600)]);
-   HAnnounce V4 0 false false; HAnnounce V4 1 true false; HAnnounce V6 0 false false; HDown RsTcp].
+Lemma reconnected_no_session_empty : forall h p fl,
+    pinv h -> h_gr h = GPeerReconnected p fl -> h_sess h = None -> h_rib h = [].
+Proof.
+  intros h p fl Hp Hg Hs. unfold pinv in Hp. rewrite Hg in Hp. destruct Hp as [_ [_ Hr]].
+  destruct (h_rib h) as [|r rest]; [reflexivity|].
+  destruct (Hr r (or_introl eq_refl) (retained_no_session h r Hs)) as [_ [[s [Hs' _]] _]]. congruence.
+Qed.
 
-Example ex_restarting_with_timer :
-  let h := h_run h0 ex_gr_llgr in
-  is_peer_restarting (h_gr h) = true /\ h_rtimer h = true /\ length (h_rib h) = 3%nat
-  /\ h_rtimer (h_step h HFailedConnect) = true
-  /\ start_llgr (snd (gr_step (h_gr h) GTimerExpired)) = Some [(V4, 3600); (V6, 3600)]
-  /\ length (h_rib (h_step h HRestartTimer)) = 2%nat
-  /\ h_ltimers (h_step h HRestartTimer) = [V4; V6].
-Proof. vm_compute. repeat split; reflexivity. Qed.
+(* ------------------------------------------------------------ preservation, event by event *)
 
-Example ex_eor_purges_only_stale :
-  let h := h_run h0 (ex_gr_llgr ++ [HUp [V4; V6] (Some ([V4; V6], 120, false)) None; HAnnounce V4 2 false false]) in
-  h_gr h = GPeerReconnected [V4; V6] false /\ length (h_rib h) = 4%nat
-  /\ map r_id (h_rib (h_step h (HEor V4))) = [0; 2] /\ map r_fam (h_rib (h_step h (HEor V4))) = [V6; V4]
-  /\ stale_ok h = true /\ stale_ok (h_step h (HEor V4)) = true.
-Proof. vm_compute. repeat split; reflexivity. Qed.
+Ltac open_inv h Hinv :=
+  let Hgen := fresh "Hgen" in let Hsess := fresh "Hsess" in let Hp := fresh "Hp" in
+  destruct Hinv as [[Hgen Hsess] Hp]; unfold pinv in Hp;
+  destruct h as [g rt lt rib S gen ad]; cbn [h_gr h_rtimer h_ltimers h_rib h_sess h_gen h_admin_down] in *.
 
-Example ex_plain_session_leaves_nothing :
-  let h := h_run h0 [HUp [V4; V6] None None; HAnnounce V4 0 false false; HAnnounce V6 1 false false] in
-  length (h_rib h) = 2%nat /\ h_rib (h_step h (HDown RsRemoteHard)) = [] /\ h_rib (h_step h (HDown RsTcp)) = [].
-Proof. vm_compute. repeat split; reflexivity. Qed.
+Lemma inv_admin : forall h b, inv h -> inv (h_step h (HSetAdminDown b)).
+Proof.
+  intros h b Hinv. open_inv h Hinv. cbn [h_step h_gr h_rtimer h_ltimers h_rib h_sess h_gen].
+  split; [constructor; assumption | exact Hp].
+Qed.
 
-Example ex_helper_entry :
-  is_peer_restarting (fst (gr_step GIdle (GSessionDropped (Some ([V4], 120)) None))) = true
-  /\ is_peer_restarting (fst (gr_step GIdle (GSessionDropped None (Some [(V4, 3600)])))) = true
-  /\ is_peer_restarting (fst (gr_step GIdle (GSessionDropped None None))) = false.
-Proof. vm_compute. repeat split; reflexivity. Qed.
+Lemma inv_fail : forall h, inv h -> inv (h_step h HFailedConnect).
+Proof.
+  intros h Hinv. open_inv h Hinv. cbn [h_step apply_disconnect upd_h h_gr h_rtimer h_ltimers h_rib h_sess h_gen].
+  split.
+  - constructor; cbn [h_rib h_gen h_sess h_rtimer h_ltimers]; [assumption|].
+    intros s Hs. destruct (Hsess s Hs) as [H1 [H2 [H3 [H4 [H5 H6]]]]]. subst rt.
+    refine (conj H1 (conj _ (conj H3 (conj H4 (conj H5 H6))))). destruct (is_peer_restarting g); reflexivity.
+  - unfold pinv. cbn [h_gr h_rtimer h_ltimers h_rib h_sess].
+    destruct g as [|stale llgr|rem|p fl]; cbn [is_peer_restarting]; try exact Hp.
+    destruct Hp as [H1 H2]. split; [reflexivity | exact H2].
+Qed.
+
+Lemma inv_announce : forall h f id nl lc, inv h -> inv (h_step h (HAnnounce f id nl lc)).
+Proof.
+  intros h f id nl lc Hinv. cbn [h_step]. destruct (h_sess h) as [s|] eqn:Es; [|exact Hinv].
+  destruct (mem f (s_fams s)) eqn:Ef; [|exact Hinv].
+  open_inv h Hinv. subst S. cbn [upd_h].
+  destruct (Hsess s eq_refl) as [Hg [Hrt [Hlt [Hsg [Hsl Hcur]]]]].
+  set (nr := {| r_fam := f; r_id := id; r_sess := s_gen s; r_stale := false; r_llgr := false;
+                r_no_llgr := nl; r_llgr_comm := lc |}).
+  assert (retained {| h_gr := g; h_rtimer := rt; h_ltimers := lt; h_rib := rib_insert rib nr;
+                      h_sess := Some s; h_gen := gen; h_admin_down := ad |} nr = false) as Hnr
+      by (unfold retained; cbn; rewrite N.eqb_refl; reflexivity).
+  split.
+  - constructor; cbn [h_rib h_gen h_sess h_rtimer h_ltimers].
+    + intros r Hin. apply in_insert in Hin. destruct Hin as [->|Hin]; [cbn; lia | apply Hgen; exact Hin].
+    + intros s' Hs'. inversion Hs'; subst s'. repeat split; try assumption;
+        apply in_insert in H; destruct H as [->|Hin]; try reflexivity; try exact Ef; apply (Hcur r Hin H0).
+  - unfold pinv. cbn [h_gr h_rtimer h_ltimers h_rib h_sess].
+    destruct g as [|stale llgr|rem|p fl].
+    + destruct Hp as [H1 [H2 H3]]. repeat split; try assumption. intros r Hin.
+      apply in_insert in Hin. destruct Hin as [->|Hin]; [exact Hnr|].
+      specialize (H3 r Hin). unfold retained in *. cbn in *. exact H3.
+    + destruct Hp as [Hn _]. discriminate.
+    + destruct Hp as [Hn _]. discriminate.
+    + destruct Hp as [H1 [H2 H3]]. split; [exact H1|]. split; [exact H2|]. intros r Hin Hret.
+      apply in_insert in Hin. destruct Hin as [->|Hin].
+      * exfalso. unfold retained in Hret. cbn in Hret. rewrite N.eqb_refl in Hret. discriminate.
+      * apply (H3 r Hin). unfold retained in *. cbn in *. exact Hret.
+Qed.
+
+Lemma retained_indep : forall g rt lt rib S gen ad g' rt' lt' rib' ad' r,
+    retained {| h_gr := g; h_rtimer := rt; h_ltimers := lt; h_rib := rib; h_sess := S; h_gen := gen; h_admin_down := ad |} r =
+    retained {| h_gr := g'; h_rtimer := rt'; h_ltimers := lt'; h_rib := rib'; h_sess := S; h_gen := gen; h_admin_down := ad' |} r.
+Proof. reflexivity. Qed.
+
+Lemma inv_eor : forall h f, inv h -> inv (h_step h (HEor f)).
+Proof.
+  intros h f Hinv. cbn [h_step]. destruct (h_sess h) as [s|] eqn:Es; [|exact Hinv].
+  destruct (s_gr s) as [gg|] eqn:Egr; [|exact Hinv].
+  open_inv h Hinv. subst S.
+  destruct (Hsess s eq_refl) as [Hg [Hrt [Hlt [Hsg [Hsl Hcur]]]]].
+  destruct g as [|stale llgr|rem|p fl].
+  - (* Idle: nothing happens *)
+    cbn [gr_step upd_h delete_fams delete_llgr_fams flat_map]. rewrite drop_stale_nil, drop_llgr_stale_nil.
+    split; [constructor; assumption | exact Hp].
+  - destruct Hp as [Hn _]. discriminate.
+  - destruct Hp as [Hn _]. discriminate.
+  - destruct Hp as [H1 [H2 H3]].
+    (* the routes that survive the purge *)
+    set (rib' := if fl then rib_drop_llgr_stale (rib_drop_stale rib []) [f]
+                 else rib_drop_llgr_stale (rib_drop_stale rib [f]) []).
+    assert (forall r, In r rib' -> In r rib /\ (r_fam r = f -> if fl then r_llgr r = false else r_stale r = false)) as Hsub.
+    { intros r Hin. subst rib'. destruct fl.
+      - rewrite drop_stale_nil in Hin. apply in_drop_llgr_stale in Hin. destruct Hin as [Hin Hn]. split; [exact Hin|].
+        intros Hf. rewrite Hf, mem_cons, N.eqb_refl in Hn. cbn in Hn. exact Hn.
+      - rewrite drop_llgr_stale_nil in Hin. apply in_drop_stale in Hin. destruct Hin as [Hin Hn]. split; [exact Hin|].
+        intros Hf. rewrite Hf, mem_cons, N.eqb_refl in Hn. cbn in Hn. exact Hn. }
+    assert (h_step_eq : 
+               (let '(g0, outs) := gr_step (GPeerReconnected p fl) (GEorReceived f) in
+                upd_h {| h_gr := GPeerReconnected p fl; h_rtimer := rt; h_ltimers := lt; h_rib := rib;
+                         h_sess := Some s; h_gen := gen; h_admin_down := ad |} g0 rt lt
+                      (rib_drop_llgr_stale (rib_drop_stale rib (delete_fams outs)) (delete_llgr_fams outs))) =
+               {| h_gr := match fremove f p with [] => GIdle | _ => GPeerReconnected (fremove f p) fl end;
+                  h_rtimer := rt; h_ltimers := lt; h_rib := rib'; h_sess := Some s; h_gen := gen; h_admin_down := ad |}).
+    { subst rib'. destruct fl; cbn; destruct (fremove f p); reflexivity. }
+    rewrite h_step_eq. clear h_step_eq.
+    split.
+    + constructor; cbn [h_rib h_gen h_sess h_rtimer h_ltimers].
+      * intros r Hin. apply Hgen. apply Hsub. exact Hin.
+      * intros s' Hs'. inversion Hs'; subst s'. repeat split; try assumption; apply (Hcur r); try assumption; apply Hsub; assumption.
+    + assert (forall r, In r rib' ->
+                retained {| h_gr := GIdle; h_rtimer := rt; h_ltimers := lt; h_rib := rib'; h_sess := Some s;
+                            h_gen := gen; h_admin_down := ad |} r = true ->
+                mem (r_fam r) (fremove f p) = true
+                /\ (exists s0, Some s = Some s0 /\ mem (r_fam r) (fams_of_gr (s_gr s0)) = true)
+                /\ (if fl then r_llgr r = true else r_stale r = true)) as Hkey.
+      { intros r Hin Hret. destruct (Hsub r Hin) as [Hin0 Hf].
+        destruct (H3 r Hin0 Hret) as [Ha [Hb Hc]]. split; [|split; assumption].
+        rewrite mem_fremove, Ha. cbn [andb]. destruct (r_fam r =? f) eqn:E; [|reflexivity].
+        apply N.eqb_eq in E. specialize (Hf E). destruct fl; congruence. }
+      unfold pinv. cbn [h_gr h_rtimer h_ltimers h_rib h_sess].
+      destruct (fremove f p) as [|x xs] eqn:Ep.
+      * split; [exact H1|]. split; [exact H2|]. intros r Hin.
+        match goal with |- ?X = false => destruct X eqn:Er; [|reflexivity] end.
+        destruct (Hkey r Hin Er) as [Hm _]. discriminate.
+      * split; [exact H1|]. split; [exact H2|]. intros r Hin Hret. apply (Hkey r Hin). exact Hret.
+Qed.
+
+Lemma delete_fams_expired : forall e lp,
+    delete_fams (match e with [] => [] | _ :: _ => [GDeleteStaleRoutes e] end ++ [GStartLlgrTimers lp]) = e.
+Proof. intros [|x r] lp; cbn; [reflexivity | rewrite app_nil_r; reflexivity]. Qed.
+
+Lemma start_llgr_expired : forall e lp,
+    start_llgr (match e with [] => [] | _ :: _ => [GDeleteStaleRoutes e] end ++ [GStartLlgrTimers lp]) = Some lp.
+Proof. intros [|x r] lp; reflexivity. Qed.
+
+(* the restart-timer handler run in phase PeerRestarting with no LLGR timer armed *)
+Lemma restart_handler_inv : forall h stale llgr,
+    inv h -> h_gr h = GPeerRestarting stale llgr -> inv (restart_handler h []).
+Proof.
+  intros h stale llgr Hinv Hg. open_inv h Hinv. subst g. destruct Hp as [HS [Hrt [Hlt Hr]]]. subst S rt lt.
+  unfold restart_handler. cbn [h_gr h_rib].
+  destruct llgr as [lp|].
+  - cbn [gr_step]. rewrite delete_fams_expired, start_llgr_expired. cbn [upd_h].
+    set (rem := dedup (map fst lp)).
+    split.
+    + constructor; cbn [h_rib h_gen h_sess]; [|intros s Hs; discriminate].
+      intros r Hin. apply in_mark_llgr in Hin. destruct Hin as [q [Hq [_ [Hs _]]]]. rewrite Hs.
+      apply Hgen. apply in_drop in Hq. tauto.
+    + unfold pinv. cbn [h_gr h_rtimer h_ltimers h_rib h_sess].
+      split; [reflexivity|]. split; [reflexivity|]. split; [intros f; reflexivity|].
+      intros r Hin. apply in_mark_llgr in Hin. destruct Hin as [q [Hq [Hf [_ [_ Hm]]]]].
+      apply in_drop in Hq. destruct Hq as [Hq Hne]. destruct (Hr q Hq) as [Hst _].
+      rewrite mem_filter, Hst in Hne. cbn [andb] in Hne. apply negb_false_iff in Hne.
+      split; [rewrite Hf; exact Hne|].
+      subst rem. rewrite mem_dedup in Hne. apply Hm. exact Hne.
+  - cbn [gr_step delete_fams start_llgr flat_map fold_right upd_h]. rewrite app_nil_r.
+    assert (rib_drop rib stale = []) as ->.
+    { destruct (rib_drop rib stale) as [|r rest] eqn:E; [reflexivity|]. exfalso.
+      assert (In r (rib_drop rib stale)) as Hin by (rewrite E; left; reflexivity).
+      apply in_drop in Hin. destruct Hin as [Hin Hn]. destruct (Hr r Hin) as [Hst _]. congruence. }
+    split.
+    + constructor; cbn [h_rib h_gen h_sess]; [intros r [] | intros s Hs; discriminate].
+    + unfold pinv. cbn. repeat split. intros r [].
+Qed.
+
+Lemma inv_rtimer : forall h, inv h -> inv (h_step h HRestartTimer).
+Proof.
+  intros h Hinv. cbn [h_step]. destruct (h_rtimer h) eqn:Ert; [|exact Hinv].
+  destruct Hinv as [Hg Hp]. pose proof Hp as Hp'. unfold pinv in Hp'.
+  destruct (h_gr h) as [|stale llgr|rem|p fl] eqn:Eg.
+  - destruct Hp' as [H _]. congruence.
+  - destruct Hp' as [_ [_ [Hlt _]]]. rewrite Hlt. apply (restart_handler_inv h stale llgr); [split; assumption | exact Eg].
+  - destruct Hp' as [_ [H _]]. congruence.
+  - destruct Hp' as [H _]. congruence.
+Qed.
+
+(* one LLGR handler in phase LlgrStaling *)
+Lemma llgr_step_eq : forall rem rt lt rib S gen ad f,
+    llgr_handler {| h_gr := GLlgrStaling rem; h_rtimer := rt; h_ltimers := lt; h_rib := rib; h_sess := S;
+                    h_gen := gen; h_admin_down := ad |} f =
+    {| h_gr := match fremove f rem with [] => GIdle | _ => GLlgrStaling (fremove f rem) end;
+       h_rtimer := rt; h_ltimers := lt; h_rib := rib_drop_llgr_stale rib [f]; h_sess := S;
+       h_gen := gen; h_admin_down := ad |}.
+Proof. intros. unfold llgr_handler. cbn. destruct (fremove f rem); reflexivity. Qed.
+
+Lemma llgr_routes_after : forall rib rem f r,
+    (forall q, In q rib -> mem (r_fam q) rem = true /\ r_llgr q = true) ->
+    In r (rib_drop_llgr_stale rib [f]) ->
+    In r rib /\ mem (r_fam r) (fremove f rem) = true /\ r_llgr r = true.
+Proof.
+  intros rib rem f r Hr Hin. apply in_drop_llgr_stale in Hin. destruct Hin as [Hin Hn].
+  destruct (Hr r Hin) as [Hm Hl]. split; [exact Hin|]. split; [|exact Hl].
+  rewrite Hl, andb_true_r, mem_cons in Hn. change (mem (r_fam r) []) with false in Hn. rewrite orb_false_r in Hn.
+  rewrite mem_fremove, Hm, Hn. reflexivity.
+Qed.
+
+Lemma inv_ltimer : forall h f, inv h -> inv (h_step h (HLlgrTimer f)).
+Proof.
+  intros h f Hinv. cbn [h_step]. destruct (mem f (h_ltimers h)) eqn:Em; [|exact Hinv].
+  open_inv h Hinv.
+  destruct g as [|stale llgr|rem|p fl].
+  - destruct Hp as [_ [H _]]. subst lt. discriminate.
+  - destruct Hp as [_ [_ [H _]]]. subst lt. discriminate.
+  - destruct Hp as [HS [Hrt [Hlt Hr]]]. subst S rt. unfold upd_h. cbn [h_gr h_rtimer h_ltimers h_rib h_sess h_gen h_admin_down]. rewrite llgr_step_eq.
+    split.
+    + constructor; cbn [h_rib h_gen h_sess]; [|intros s Hs; discriminate].
+      intros r Hin. apply Hgen. apply (llgr_routes_after rib rem f r Hr Hin).
+    + unfold pinv. cbn [h_gr h_rtimer h_ltimers h_rib h_sess].
+      assert (forall x, mem x (fremove f lt) = mem x (fremove f rem)) as Hlt'
+          by (intros x; rewrite !mem_fremove, Hlt; reflexivity).
+      destruct (fremove f rem) as [|y ys] eqn:Er.
+      * split; [reflexivity|]. split; [apply mem_nil_list; exact Hlt'|].
+        intros r Hin. destruct (llgr_routes_after rib rem f r Hr Hin) as [_ [Hm _]]. rewrite Er in Hm. discriminate.
+      * split; [reflexivity|]. split; [reflexivity|]. split; [exact Hlt'|].
+        intros r Hin. destruct (llgr_routes_after rib rem f r Hr Hin) as [_ [Hm Hl]]. rewrite Er in Hm. tauto.
+  - destruct Hp as [_ [H _]]. subst lt. discriminate.
+Qed.
+
+(* force_down in phase LlgrStaling: every armed LLGR timer runs its handler *)
+Definition fq (rem0 : fset) (rib0 : list route) (gen : N) (P : list fam) (hh : hstate) : Prop :=
+  h_rtimer hh = false /\ h_ltimers hh = [] /\ h_sess hh = None /\ h_gen hh = gen
+  /\ (forall r, In r (h_rib hh) -> In r rib0)
+  /\ match h_gr hh with
+     | GIdle => h_rib hh = []
+     | GLlgrStaling rem' =>
+         (forall x, mem x rem' = true -> mem x rem0 = true /\ mem x P = false)
+         /\ (forall r, In r (h_rib hh) -> mem (r_fam r) rem' = true /\ r_llgr r = true)
+     | _ => False
+     end.
+
+Lemma fq_step : forall rem0 rib0 gen P hh f, fq rem0 rib0 gen P hh -> fq rem0 rib0 gen (f :: P) (llgr_handler hh f).
+Proof.
+  intros rem0 rib0 gen P hh f [H1 [H2 [H3 [H4 [H5 H6]]]]].
+  destruct hh as [g rt lt rib S gn ad]. cbn [h_gr h_rtimer h_ltimers h_rib h_sess h_gen] in *.
+  destruct g as [|stale llgr|rem'|p fl]; try contradiction.
+  - unfold llgr_handler. cbn. subst rib. unfold fq. cbn. repeat split; try assumption; try (intros r []); try contradiction.
+  - rewrite llgr_step_eq. destruct H6 as [Hx Hr]. unfold fq. cbn [h_gr h_rtimer h_ltimers h_rib h_sess h_gen].
+    split; [exact H1|]. split; [exact H2|]. split; [exact H3|]. split; [exact H4|].
+    split; [intros r Hin; apply H5; apply (llgr_routes_after rib rem' f r Hr Hin)|].
+    destruct (fremove f rem') as [|y ys] eqn:Er.
+    + destruct (rib_drop_llgr_stale rib [f]) as [|r rest] eqn:E; [reflexivity|]. exfalso.
+      assert (In r (rib_drop_llgr_stale rib [f])) as Hin by (rewrite E; left; reflexivity).
+      destruct (llgr_routes_after rib rem' f r Hr Hin) as [_ [Hm _]]. rewrite Er in Hm. discriminate.
+    + rewrite <- Er. split.
+      * intros x Hm. rewrite mem_fremove in Hm. apply andb_true_iff in Hm. destruct Hm as [Hm Hne].
+        destruct (Hx x Hm) as [Ha Hb]. split; [exact Ha|]. rewrite mem_cons, Hb. apply negb_true_iff in Hne. rewrite Hne. reflexivity.
+      * intros r Hin. destruct (llgr_routes_after rib rem' f r Hr Hin) as [_ Hc]. exact Hc.
+Qed.
+
+Lemma fq_fold : forall L rem0 rib0 gen P hh,
+    fq rem0 rib0 gen P hh -> fq rem0 rib0 gen (rev L ++ P) (fold_left llgr_handler L hh).
+Proof.
+  induction L as [|f r IH]; intros rem0 rib0 gen P hh H; cbn [fold_left rev app]; [exact H|].
+  rewrite <- app_assoc. cbn [app]. apply IH. apply fq_step. exact H.
+Qed.
+
+Lemma inv_force : forall h, inv h -> inv (h_step h HForceDown).
+Proof.
+  intros h Hinv. cbn [h_step]. destruct (h_rtimer h) eqn:Ert.
+  - (* the restart timer is armed: phase PeerRestarting, no LLGR timer *)
+    destruct Hinv as [Hg Hp]. pose proof Hp as Hp'. unfold pinv in Hp'.
+    destruct (h_gr h) as [|stale llgr|rem|p fl] eqn:Eg.
+    + destruct Hp' as [H _]. congruence.
+    + destruct Hp' as [_ [_ [Hlt _]]]. rewrite Hlt. cbn [fold_left].
+      apply (restart_handler_inv h stale llgr); [split; assumption | exact Eg].
+    + destruct Hp' as [_ [H _]]. congruence.
+    + destruct Hp' as [H _]. congruence.
+  - open_inv h Hinv. subst rt. unfold upd_h. cbn [h_gr h_rtimer h_ltimers h_rib h_sess h_gen h_admin_down].
+    destruct g as [|stale llgr|rem|p fl].
+    + destruct Hp as [_ [Hlt Hr]]. subst lt. cbn [fold_left]. split; [constructor; assumption|].
+      unfold pinv. cbn [h_gr h_rtimer h_ltimers h_rib h_sess]. split; [reflexivity|]. split; [reflexivity|]. exact Hr.
+    + destruct Hp as [_ [H _]]. discriminate.
+    + destruct Hp as [HS [_ [Hlt Hr]]]. subst S.
+      assert (fq rem rib gen []
+                 {| h_gr := GLlgrStaling rem; h_rtimer := false; h_ltimers := []; h_rib := rib; h_sess := None;
+                    h_gen := gen; h_admin_down := ad |}) as H0.
+      { unfold fq. cbn. repeat split; try tauto; try apply Hr; assumption. }
+      pose proof (fq_fold lt rem rib gen [] _ H0) as HF. rewrite app_nil_r in HF.
+      set (hh := fold_left llgr_handler lt _) in *.
+      destruct HF as [F1 [F2 [F3 [F4 [F5 F6]]]]].
+      split.
+      * constructor; [intros r Hin; rewrite F4; apply Hgen; apply F5; exact Hin | intros s Hs; congruence].
+      * unfold pinv. destruct (h_gr hh) as [|stale llgr|rem'|p fl]; try contradiction.
+        -- split; [exact F1|]. split; [exact F2|]. rewrite F6. intros r [].
+        -- destruct F6 as [Hx Hr']. split; [exact F3|]. split; [exact F1|].
+           assert (rem' = []) as ->.
+           { apply mem_nil_list. intros x. destruct (mem x rem') eqn:E; [|reflexivity]. destruct (Hx x E) as [Ha Hb].
+             rewrite <- Hlt in Ha. apply mem_In in Ha. apply in_rev in Ha. apply mem_In in Ha. pose proof (eq_trans (eq_sym Ha) Hb) as Hc. discriminate Hc. }
+           split; [intros f; rewrite F2; reflexivity|]. exact Hr'.
+    + destruct Hp as [_ [Hlt Hr]]. subst lt. cbn [fold_left]. split; [constructor; assumption|].
+      unfold pinv. cbn [h_gr h_rtimer h_ltimers h_rib h_sess]. split; [reflexivity|]. split; [reflexivity|]. exact Hr.
+Qed.
